@@ -7,7 +7,7 @@
    motion or reflection is  map (rigid R t) ps  with  orth R  (R^T R = I, hence det R = +-1).
    NOT modelled (claimed partial): the rotational symmetry number search of
    thermochemistry/symmetry.py; its frame independence is exercised by the harness only. *)
-From Coq Require Import ZArith QArith Qcanon List Bool Arith Lia.
+From Coq Require Import ZArith QArith Qcanon List Bool Arith Lia Permutation.
 From AV.lib Require Import QcInst.
 From AV.C03 Require Import Vec.
 From AV.gen Require Import C03_Gen.
@@ -65,7 +65,14 @@ Proof. exact dihedral_sin_triple. Qed.
 
 (* ------------------------------------------------------------------ perceived graph: frames *)
 (* the perceived graph (edge list in insertion order, before and after the valence cap, and the
-   error cases) is a function of the element list and the distance matrix only *)
+   error cases) is a function of the element list and the distance matrix only.
+   NOTE: this holds by construction of the model (make_graph_model factors through dmat); its content
+   is model fidelity, which the correspondence checks.  The code orders the neighbours of an
+   over-coordinated atom by (round(distance, 6), index) (/repo 3e32450: before that, equal distances at
+   a cut were decided by float rounding and the graph of symmetric over-coordinated structures changed
+   under rotation); the model orders by (exact distance, index).  The two agree except when two
+   distances differ by less than the rounding resolution or sit on a rounding boundary: that margin
+   class is skipped and counted by the harness. *)
 Theorem graph_function_of_distance_matrix : forall tol el ps ps',
   dmat ps = dmat ps' ->
   make_graph_model tol el ps = make_graph_model tol el ps' /\
@@ -74,7 +81,8 @@ Proof.
   intros tol el ps ps' H. unfold make_graph_model, make_graph_unpruned_model. rewrite H. split; reflexivity.
 Qed.
 
-(* hence it is unchanged by every translation, rotation and mirror reflection *)
+(* hence it is unchanged by every translation, rotation and mirror reflection (R ranges over RATIONAL
+   orthogonal matrices; exact arithmetic - see the note above for the tie class) *)
 Theorem graph_rigid_invariant : forall R t, orth R -> forall tol el ps,
   make_graph_model tol el (map (rigid R t) ps) = make_graph_model tol el ps /\
   make_graph_unpruned_model tol el (map (rigid R t) ps) = make_graph_unpruned_model tol el ps.
@@ -151,10 +159,32 @@ Proof.
     exists i, j. split; [exact Hij|]. split; [exact Hi|]. cbv zeta. repeat split; assumption.
 Qed.
 
+(* Equally long bonds at the valence limit are removed in atom-index order (/repo 3e32450), so which
+   of them survives does not depend on rounding: a neighbour that i KEEPS at exactly the distance of
+   a neighbour j it LOSES has a smaller index than j.  (For every graph, distance table and cap.) *)
+Theorem cap_ties_removed_by_index : forall d mv (g : graph) i j k,
+  has_edge g i j = true -> has_edge (prune_node d mv g i) i j = false ->
+  has_edge (prune_node d mv g i) i k = true -> d i k = d i j -> (k < j)%nat.
+Proof. exact prune_node_ties_by_index. Qed.
+
 (* ------------------------------------------------------------------ shape predicates *)
 Theorem linear_rigid_invariant : forall R t, orth R -> forall ct ps,
   are_linear_model ct (map (rigid R t) ps) = are_linear_model ct ps.
 Proof. intros R t H ct ps. apply are_linear_rigid. exact H. Qed.
+
+(* linearity (as repaired by /repo 5a4ab9d: angles measured at every atom) does not depend on the
+   order the atoms are listed in - for EVERY structure, over-coordinated or not, near the tolerance
+   or not *)
+Theorem linear_perm_invariant : forall ct ps ps', Permutation ps ps' ->
+  are_linear_model ct ps = are_linear_model ct ps'.
+Proof. exact are_linear_perm. Qed.
+
+(* the literal loops (every atom i, every pair of the OTHER atoms) decide the same as the test over
+   all ordered triples *)
+Theorem linear_all_triples : forall ct ps,
+  are_linear_model ct ps =
+  if Nat.ltb (length ps) 2 then false else if Nat.eqb (length ps) 2 then true else are_linear_sym ct ps.
+Proof. exact are_linear_model_eq. Qed.
 
 (* rotation, translation AND reflection (orth R covers det R = -1).  The proof goes through the
    GENERATED test planar_off and needs its absolute value (Lemmas.planar_off_rigid): this is what
